@@ -176,7 +176,7 @@ package iobroker
 //@   loop 1
 //@     invariant forwarded: imp(lastN != 0, sentData) && imp(lastErr != nil, sentErr)
 //@     invariant errvar: err == lastErr
-//@     invariant bufok: len(buf) == 2048
+//@     invariant bufok: len(buf) == pre("1", len(buf))
 //@   ensures all_forwarded_unless_cancelled: done(ctx) || (imp(lastN != 0, sentData) && imp(lastErr != nil, sentErr))
 
 // ConnectInOut: both sides get one key which no other call uses (the counter
